@@ -391,3 +391,90 @@ pub fn norm_header(rest: &[[u8; 4]]) -> (Vec<u8>, Vec<u8>, u8, Vec<[u8; 4]>) {
     let extra = rest.iter().skip(16).copied().collect();
     (scheme, family, face, extra)
 }
+
+impl RawFont {
+    /// Is the font seven-bit safe in the sense of PLtoTF §110-§112 (own judgement from the raw tables, no code of the crate
+    /// under test)? A character below 128 (or the left boundary) must not lead to a character of 128 or more through
+    ///  * a NEXTLARGER link;
+    ///  * a piece of its extensible recipe;
+    ///  * a ligature step that can be reached by seven-bit input: the step's right-hand character is below 128 or is the
+    ///    boundary character, it is the FIRST step of that program for this right-hand character (`hash_input`: later
+    ///    steps for the same pair never fire), and the character it inserts is 128 or more.
+    /// `None` if a table is inconsistent (index out of range, program running off the end): no judgement.
+    pub fn seven_bit_safe(&self) -> Option<bool> {
+        self.seven_bit_safe_by(true)
+    }
+
+    /// `tex = false`: the simplified analysis of the code under test today (listed finding
+    /// C11-seven-bit-safety-analysis-simplified): EVERY ligature step of a seven-bit character's program counts, also one
+    /// that an earlier step for the same right-hand character shadows; the boundary character as right-hand character
+    /// and the left boundary's own program are not considered.
+    pub fn seven_bit_safe_by(&self, tex: bool) -> Option<bool> {
+        let nl = self.lig_kern.len();
+        let bchar: Option<u8> = match self.lig_kern.first() {
+            Some(w) if w[0] == 255 => Some(w[1]),
+            _ => None,
+        };
+        let mut starts: Vec<usize> = vec![];
+        for c in 0..128u16 {
+            let Some(i) = self.info(c) else { continue };
+            if i[0] == 0 {
+                continue; // the character does not exist
+            }
+            match i[2] % 4 {
+                1 => {
+                    let mut k = i[3] as usize;
+                    let w = self.lig_kern.get(k)?;
+                    if w[0] > 128 {
+                        k = 256 * w[2] as usize + w[3] as usize;
+                    }
+                    starts.push(k);
+                }
+                2 => {
+                    if i[3] >= 128 {
+                        return Some(false);
+                    }
+                }
+                3 => {
+                    let e = self.exten.get(i[3] as usize)?;
+                    if e.iter().any(|b| *b >= 128) {
+                        return Some(false);
+                    }
+                }
+                _ => {}
+            }
+        }
+        // the left boundary's program counts as seven-bit input too (PLtoTF: `(c<128) or (c=256)`)
+        if let (true, Some(w)) = (tex, self.lig_kern.last()) {
+            if w[0] == 255 {
+                starts.push(256 * w[2] as usize + w[3] as usize);
+            }
+        }
+        for start in starts {
+            let mut seen = [false; 256];
+            let mut k = start;
+            let mut steps = 0;
+            loop {
+                let w = self.lig_kern.get(k)?;
+                steps += 1;
+                if steps > nl + 1 {
+                    return None;
+                }
+                if w[0] <= 128 {
+                    let right = w[1] as usize;
+                    if !seen[right] || !tex {
+                        seen[right] = true;
+                        if w[2] < 128 && w[3] >= 128 && (w[1] < 128 || (tex && Some(w[1]) == bchar)) {
+                            return Some(false);
+                        }
+                    }
+                }
+                if w[0] >= 128 {
+                    break;
+                }
+                k += w[0] as usize + 1;
+            }
+        }
+        Some(true)
+    }
+}
